@@ -20,10 +20,7 @@ Proof. intros c k. unfold fresh, c_set_state; simpl. repeat split; discriminate.
 
 Ltac crush :=
   unfold fresh in *; simpl in *;
-  repeat match goal with
-         | H : _ /\ _ |- _ => destruct H
-         end;
-  repeat split; intros; subst; auto; try discriminate; try congruence.
+  intuition (subst; auto; try discriminate; try congruence).
 
 Lemma fresh_compute_a : forall k c, fresh k c -> fresh k (compute_a c) /\ a_set (compute_a c) = true.
 Proof. intros k c H. unfold compute_a. destruct (a_set c) eqn:E; cbv iota; [split; auto|]. split; [crush|reflexivity]. Qed.
@@ -84,7 +81,7 @@ Proof.
   - unfold compute_La. destruct (La_set c); [exact Ha|]. simpl.
     now rewrite (proj1 (compute_b_keeps_a c)).
   - unfold compute_L0b. destruct (L0b_set c); [exact Ha|]. simpl.
-    unfold compute_a. destruct (a_set (compute_Lb c)); reflexivity.
+    unfold compute_a. destruct (a_set (compute_Lb c)) eqn:E2; cbv iota; [exact E2|reflexivity].
   - unfold compute_LLb. destruct (LLb_set c); [exact Ha|]. simpl.
     now rewrite (proj1 (compute_Lb_keeps_a c)).
   - unfold compute_L0a. destruct (L0a_set c); exact Ha.
